@@ -4,6 +4,7 @@ package c18
 import (
 	"fmt"
 	"io"
+	"sort"
 	"strings"
 	"testing"
 	"time"
@@ -23,7 +24,7 @@ import (
 	"verif/internal/wx"
 )
 
-var suite = vrt.NewSuite("C18", "(tree of simple values incl. nil members, nested empty containers and time.Time, conversion, mutation script): Generify->Simplify, GenAlter->Alter, Dup, Decompose (explicit options that keep nulls; TimeFormat 'time' where times occur) must give a typed-canon-equal tree; writers must give identical text for a gen tree and its simple equivalent; gen.Parser(text) must equal Generify(oj.Parser(text)), also through readers with 1-7 byte reads and for the text with its floats respelled (integer mantissa with exponent, upper case exponent, trailing zeros); after a generated mutation script (set/delete member, overwrite element, write through a retained sub-slice) applied to the copy or to the original, the other side's canon is unchanged for the copying operations. Non-trivial = tree with >=2 container levels and a mutation that hits a nested container; distinct = distinct (tree, script)")
+var suite = vrt.NewSuite("C18", "(tree of simple values incl. nil members, nested empty containers and time.Time, conversion, mutation script): Generify->Simplify, GenAlter->Alter, Dup, Decompose (explicit options that keep nulls; TimeFormat 'time' where times occur) must give a typed-canon-equal tree; writers must give identical text for a gen tree and its simple equivalent; gen.Parser(text) must equal Generify(oj.Parser(text)), also through readers with 1-7 byte reads, with kinds compared (1.0 is a float on both sides), for the text with its numbers respelled (integer mantissa with exponent, upper case exponent, trailing zeros, whole numbers with a fraction part of zeros), with CR LF and bare CR line ends, and for a stream of documents handed to callbacks by parsers that recycle their maps (Reuse); after a generated mutation script (set/delete member, overwrite element, write through a retained sub-slice) applied to the copy or to the original, the other side's canon is unchanged for the copying operations. Non-trivial = tree with >=2 container levels and a mutation that hits a nested container; distinct = distinct (tree, script)")
 
 type Mut struct {
 	Target int `json:"target"` // which container (in walk order, modulo count)
@@ -383,7 +384,7 @@ func Run(cs Case, c *vrt.Ctx) {
 			if gv != nil {
 				y = gv
 			}
-			if !canon.Same(x, y) {
+			if !sameKinds(x, y) {
 				c.Fail("gen-parser-differs", "gen.Parser", fmt.Sprintf("Generify(oj.Parse)=%s gen.Parse=%s on %s", clip(canon.String(x, canon.Typed)), clip(canon.String(y, canon.Typed)), clip(text)))
 			}
 			// the same through the reader entry point, however the text arrives (1, 2, 3, 5 and 7
@@ -394,15 +395,17 @@ func Run(cs Case, c *vrt.Ctx) {
 			// ... and the indented text with CR LF line ends (and bare CR), respelled or not
 			crlf := strings.ReplaceAll(oj.JSON(tree, &ojg.Options{Sort: true, Indent: 2}), "\n", "\r\n")
 			cr := strings.ReplaceAll(oj.JSON(tree, &ojg.Options{Sort: true, Indent: 1}), "\n", "\r")
-			for mode := 1; mode <= 11; mode++ {
+			for mode := 1; mode <= 14; mode++ {
 				src := text
-				switch {
-				case mode >= 8:
-					src = cr
-				case mode >= 4:
+				switch mode / 5 {
+				case 1:
 					src = crlf
+				case 2:
+					src = cr
 				}
-				rt := gx.RespellFloats([]byte(src), mode%4)
+				// mode%5 == 4: whole numbers written with a fraction part of zeros (1.0): a float64
+				// from oj.Parser, so a gen.Float from gen.Parser
+				rt := gx.RespellFloats([]byte(src), mode%5)
 				if string(rt) == text {
 					continue
 				}
@@ -421,8 +424,55 @@ func Run(cs Case, c *vrt.Ctx) {
 				if rgv != nil {
 					ry = rgv
 				}
-				if !canon.Same(rx, ry) {
+				if !sameKinds(rx, ry) {
 					c.Fail("gen-parser-differs", "gen.Parser", fmt.Sprintf("Generify(oj.Parse)=%s gen.Parse=%s on the respelled text %s", clip(canon.String(rx, canon.Typed)), clip(canon.String(ry, canon.Typed)), clip(string(rt))))
+				}
+			}
+			// a stream of documents (the tree, the tree with every other member and element taken
+			// out, the tree again) through parsers that recycle their maps (Reuse) and hand each
+			// document to a callback: what gen.Parser delivers, looked at when it is delivered, is
+			// Generify of what oj.Parser delivers
+			stream := text + "\n" + oj.JSON(thinned(tree), sortOpt) + " " + text + "\n" + oj.JSON(thinned(thinned(tree)), sortOpt)
+			for _, reuse := range []bool{true, false} {
+				for _, size := range []int{0, 1, 5} {
+					var want, got []string
+					op := oj.Parser{Reuse: reuse}
+					gpr := gen.Parser{Reuse: reuse}
+					ocb := func(v any) bool {
+						var gv any
+						if g := alt.Generify(v, keepAll); g != nil {
+							gv = g
+						}
+						want = append(want, canon.String(gv, canon.Typed))
+						return false
+					}
+					gcb := func(n gen.Node) bool {
+						var gv any
+						if n != nil {
+							gv = n
+						}
+						got = append(got, canon.String(gv, canon.Typed))
+						return false
+					}
+					var oerr, gerr error
+					if pv, stack := vrt.Catch(func() {
+						if size == 0 {
+							_, oerr = op.Parse([]byte(stream), ocb)
+							_, gerr = gpr.Parse([]byte(stream), gcb)
+						} else {
+							_, oerr = op.ParseReader(&sizedReader{data: []byte(stream), size: size}, ocb)
+							_, gerr = gpr.ParseReader(&sizedReader{data: []byte(stream), size: size}, gcb)
+						}
+					}); pv != nil {
+						c.Fail("panic", "gen.Parser(stream)", fmt.Sprintf("%v at %s", pv, stack))
+						continue
+					}
+					where := fmt.Sprintf("gen.Parser(stream,reuse=%v,reads=%d)", reuse, size)
+					if oerr != nil || gerr != nil {
+						c.Fail("parser-error-differs", where, fmt.Sprintf("oj: %v gen: %v on %s", oerr, gerr, clip(stream)))
+					} else if strings.Join(want, "\x00") != strings.Join(got, "\x00") {
+						c.Fail("gen-parser-differs", where, fmt.Sprintf("Generify(oj.Parser) delivers %s gen.Parser delivers %s on %s", clip(strings.Join(want, " | ")), clip(strings.Join(got, " | ")), clip(stream)))
+					}
 				}
 			}
 			for _, txt := range []string{text, oj.JSON(tree, &ojg.Options{Sort: true, Indent: 2})} {
@@ -438,13 +488,53 @@ func Run(cs Case, c *vrt.Ctx) {
 					}
 					if rerr != nil {
 						c.Fail("parser-error-differs", "gen.Parser.ParseReader", fmt.Sprintf("%d byte reads: %v on %s", size, rerr, clip(txt)))
-					} else if !canon.Same(x, z) {
+					} else if !sameKinds(x, z) {
 						c.Fail("gen-parser-differs", "gen.Parser.ParseReader", fmt.Sprintf("%d byte reads: Generify(oj.Parse)=%s gen.ParseReader=%s on %s", size, clip(canon.String(x, canon.Typed)), clip(canon.String(z, canon.Typed)), clip(txt)))
 					}
 				}
 			}
 		}
 	}
+}
+
+// sameKinds: the same tree with the same number kinds. Plain integers in the top decade of int64
+// come back as int64 or as big text depending on how the text arrives (C02-K1, pinned by the
+// repository's tests): with one of those in the tree only the values are compared.
+func sameKinds(a, b any) bool {
+	if !canon.Same(a, b) {
+		return false
+	}
+	ta, tb := canon.String(a, canon.Typed), canon.String(b, canon.Typed)
+	return ta == tb || strings.Contains(ta, "922337203685477580") || strings.Contains(tb, "922337203685477580")
+}
+
+// thinned gives a copy of the tree without every other member (in key order) of each map and
+// every other element of each array.
+func thinned(v any) any {
+	switch tv := v.(type) {
+	case map[string]any:
+		keys := make([]string, 0, len(tv))
+		for k := range tv {
+			keys = append(keys, k)
+		}
+		sort.Strings(keys)
+		out := map[string]any{}
+		for i, k := range keys {
+			if i%2 == 0 {
+				out[k] = thinned(tv[k])
+			}
+		}
+		return out
+	case []any:
+		out := []any{}
+		for i, e := range tv {
+			if i%2 == 0 {
+				out = append(out, thinned(e))
+			}
+		}
+		return out
+	}
+	return v
 }
 
 // sizedReader hands out its data in reads of a fixed size.
